@@ -44,6 +44,10 @@ def _chunk(args):
         bad, u, n, info = S.check_case(rec, seed=seed * 100003 + i, variant=i + seed)
         nev += n
         out.extend(bad)
+        if (i + seed) % 4 == 0:                  # make_signal called directly, G exact from the specification
+            b2, n2 = S.check_make_signal(rec, seed * 100003 + i)
+            nev += n2
+            out.extend(b2)
         unsup.extend(u)
         maxerr = max(maxerr, info.get('err', 0.0))
         if not rec['demanded']:
@@ -136,11 +140,11 @@ def run(ctx):
                 ('models', dict(nconds='{5}', grid='GridQ', keepmod=8), 'm_Q5'),
                 ('models', dict(nconds='{5}', grid='GridA', keepmod=160, offs='Offs'), 'm_A5'),
                 ('models', dict(nconds='{3,4,5}', grid='GridL', keepmod=12), 'm_L'),
-                ('protocol', dict(nconds='{2,3,4,5}', offs='OffsFew', keepmod=8), 'p_cat')]
+                ('protocol', dict(nconds='{2,3,4,5}', offs='OffsFew', keepmod=12), 'p_cat')]
     else:
         runs = [('models', dict(nconds='{2,3,4}', grid='GridA', keepmod=64), 'm_A234'),
                 ('models', dict(nconds='{5}', grid='GridQ', keepmod=32), 'm_Q5'),
-                ('protocol', dict(nconds='{2,3,4,5}', offs='OffsFew', nparts='{1,3}', keepmod=16), 'p_cat')]
+                ('protocol', dict(nconds='{2,3,4,5}', offs='OffsFew', nparts='{1,3}', keepmod=24), 'p_cat')]
     ctx.exhaustive = False
     total = neg = 0
     maxerr = 0.0
@@ -163,6 +167,10 @@ def run(ctx):
                 ctx.sample({k: rec[k] for k in ('n', 'pts', 'P', 'nPart', 'nSim', 'sig', 'design', 'same', 'labels',
                                                 'draws', 'model', 'rdm', 'cls')}, cap=4)
                 break
+    ctx.extra['observation_noise_cov_channel_factor'] = S.observe_channel_factor()
+    for key, what, detail in S.check_error_branches():
+        ctx.violation(f'{PID}/{key}', what, detail)
+    ctx.count(3)
     # clause b for every size: make_design is pure and cheap - all n_cond in 1..130 x n_part in 1..4
     r = ctx.tlc('MC_Simulation', S.cfg('design', nconds='N130', nparts='{1,2,3,4}', salt=salt), name='design_sweep',
                 workers=8, timeout=900)
